@@ -44,7 +44,8 @@ def rand_value(rng, depth):
 
 
 def rand_sp(rng):
-    n = rng.randint(1, 3)
+    # the empty state point is a valid state point too (falsy: `not sp` vs `sp is None` bugs)
+    n = 0 if rng.random() < 0.06 else rng.randint(1, 3)
     return {k: rand_value(rng, 2) for k in rng.sample(KEYS, n)}
 
 
@@ -93,6 +94,8 @@ def gen_inputs(tier, rng):
                     continue
                 descs.append({"kind": "word", "word": list(word),
                               "sps": [typed({"a": 1}), typed({"a": 1.0}), typed({"a": {"b": [True, None]}, "é": "x"})]})
+                if n <= 3:
+                    descs.append({"kind": "word", "word": list(word), "sps": [typed({}), typed({"a": 0}), typed({"a": {}})]})
     return descs
 
 
